@@ -19,6 +19,7 @@
 
 use crate::errors::{Error, Result};
 use erltf::OwnedTerm;
+use erltf::types::BigInt;
 use std::convert::TryFrom;
 use std::mem;
 
@@ -105,6 +106,42 @@ impl ControlMessageType {
 
     pub fn as_u8(self) -> u8 {
         self as u8
+    }
+}
+
+/// Unlink ids are 64-bit unsigned integers. Ids above `i32::MAX` come off the wire as
+/// big integers, and ids above `i64::MAX` do not fit `OwnedTerm::Integer`.
+fn unlink_id_from_term(term: &OwnedTerm, what: &str) -> Result<u64> {
+    match term {
+        OwnedTerm::Integer(i) if *i >= 0 => Ok(*i as u64),
+        OwnedTerm::Integer(i) => Err(Error::InvalidControlMessage(format!(
+            "{} id must be non-negative: {}",
+            what, i
+        ))),
+        OwnedTerm::BigInt(big)
+            if big.sign.is_positive() && big.digits.iter().skip(8).all(|&d| d == 0) =>
+        {
+            let mut bytes = [0u8; 8];
+            for (dst, src) in bytes.iter_mut().zip(big.digits.iter()) {
+                *dst = *src;
+            }
+            Ok(u64::from_le_bytes(bytes))
+        }
+        OwnedTerm::BigInt(_) => Err(Error::InvalidControlMessage(format!(
+            "{} id must be a non-negative 64-bit integer",
+            what
+        ))),
+        _ => Err(Error::InvalidControlMessage(format!(
+            "{} id must be an integer",
+            what
+        ))),
+    }
+}
+
+fn unlink_id_to_term(id: u64) -> OwnedTerm {
+    match i64::try_from(id) {
+        Ok(i) => OwnedTerm::Integer(i),
+        Err(_) => OwnedTerm::BigInt(BigInt::new(false, id.to_le_bytes().to_vec())),
     }
 }
 
@@ -376,38 +413,20 @@ impl ControlMessage {
             }),
 
             Some(ControlMessageType::UnlinkId) if elements.len() == 4 => {
-                let id_raw = elements[1].as_integer().ok_or_else(|| {
-                    Error::InvalidControlMessage("UNLINK_ID id must be an integer".to_string())
-                })?;
-
-                if id_raw < 0 {
-                    return Err(Error::InvalidControlMessage(format!(
-                        "UNLINK_ID id must be non-negative: {}",
-                        id_raw
-                    )));
-                }
+                let id = unlink_id_from_term(&elements[1], "UNLINK_ID")?;
 
                 Ok(ControlMessage::UnlinkId {
-                    id: id_raw as u64,
+                    id,
                     from_pid: elements[2].clone(),
                     to_pid: elements[3].clone(),
                 })
             }
 
             Some(ControlMessageType::UnlinkIdAck) if elements.len() == 4 => {
-                let id_raw = elements[1].as_integer().ok_or_else(|| {
-                    Error::InvalidControlMessage("UNLINK_ID_ACK id must be an integer".to_string())
-                })?;
-
-                if id_raw < 0 {
-                    return Err(Error::InvalidControlMessage(format!(
-                        "UNLINK_ID_ACK id must be non-negative: {}",
-                        id_raw
-                    )));
-                }
+                let id = unlink_id_from_term(&elements[1], "UNLINK_ID_ACK")?;
 
                 Ok(ControlMessage::UnlinkIdAck {
-                    id: id_raw as u64,
+                    id,
                     from_pid: elements[2].clone(),
                     to_pid: elements[3].clone(),
                 })
@@ -648,7 +667,7 @@ impl ControlMessage {
                 to_pid,
             } => OwnedTerm::Tuple(vec![
                 OwnedTerm::Integer(ControlMessageType::UnlinkId as i64),
-                OwnedTerm::Integer(*id as i64),
+                unlink_id_to_term(*id),
                 from_pid.clone(),
                 to_pid.clone(),
             ]),
@@ -659,7 +678,7 @@ impl ControlMessage {
                 to_pid,
             } => OwnedTerm::Tuple(vec![
                 OwnedTerm::Integer(ControlMessageType::UnlinkIdAck as i64),
-                OwnedTerm::Integer(*id as i64),
+                unlink_id_to_term(*id),
                 from_pid.clone(),
                 to_pid.clone(),
             ]),
@@ -973,7 +992,7 @@ impl ControlMessage {
                 to_pid,
             } => OwnedTerm::Tuple(vec![
                 OwnedTerm::Integer(ControlMessageType::UnlinkId as i64),
-                OwnedTerm::Integer(id as i64),
+                unlink_id_to_term(id),
                 from_pid,
                 to_pid,
             ]),
@@ -984,7 +1003,7 @@ impl ControlMessage {
                 to_pid,
             } => OwnedTerm::Tuple(vec![
                 OwnedTerm::Integer(ControlMessageType::UnlinkIdAck as i64),
-                OwnedTerm::Integer(id as i64),
+                unlink_id_to_term(id),
                 from_pid,
                 to_pid,
             ]),
